@@ -40,6 +40,11 @@ structure Request where
   type : Bytes      -- type the planned entry must carry
   packager : Bytes
   fromTree : Bool := false
+  /-- the destination of a `tree` entry itself when it is a filesystem-owned
+      directory: declared by the user, yet planned as an implied directory.
+      Whether it "occupies" the destination is not settled by the property;
+      both readings are accepted (see DESIGN.md C05). -/
+  treeRootImplied : Bool := false
 deriving Repr, DecidableEq
 
 /-- what one relevant raw entry asks for (file/config: via the glob mapping; tree: via the walk) -/
@@ -57,7 +62,8 @@ def requestsOf (O : Oracle) (cfg : PlanCfg) (i : Nat) (c : Content) : Except Err
         | .dir =>
           let k := normDir d
           { key := k, isDir := true, explicit := !ownedByFs k,
-            type := if ownedByFs k then T.implicitDir else T.dir, packager := [], fromTree := true }
+            type := if ownedByFs k then T.implicitDir else T.dir, packager := [], fromTree := true,
+            treeRootImplied := ownedByFs k && e.rel == dotS }
         | .symlink => { key := normFile d, isDir := false, explicit := true, type := T.symlink, packager := [], fromTree := true }
         | .file => { key := normFile d, isDir := false, explicit := true, type := T.file, packager := [], fromTree := true }))
     | _ => .error .walkErr
@@ -103,6 +109,10 @@ def anyPair {α} (p : α → α → Bool) : List α → Bool
 
 def conflicts (rs : List Request) : Bool :=
   anyPair (fun a b => clash a b || beneath a b) rs
+
+/-- the stricter reading: a filesystem-owned tree destination counts as declared -/
+def conflictsStrict (rs : List Request) : Bool :=
+  conflicts (rs.map (fun r => if r.treeRootImplied then { r with explicit := true } else r))
 
 /-- label of the first conflicting pair (for reports) -/
 def conflictKind : List Request → String
@@ -155,18 +165,27 @@ def check (O : Oracle) (cfg : PlanCfg) (raw : List Content)
     (result : Except ErrClass (List Content)) : List String :=
   match requests O cfg raw with
   | .error e =>
+    -- some request cannot be expanded: planning must fail; which of several
+    -- causes is reported first is not part of the property
     match result with
-    | .error e' => if e = e' then [] else [s!"error-class expected={e.name} got={e'.name}"]
+    | .error _ => []
     | .ok _ => [s!"missing-error expected={e.name}"]
   | .ok rs =>
-    if conflicts rs then
+    if rs.any (fun r => pathOf r.key = []) then
+      -- an entry that denotes the root directory itself: no clean destination
+      -- exists for it; the property can only be met by rejecting it
+      match result with
+      | .error _ => []
+      | .ok _ => ["root-destination"]
+    else if conflicts rs then
       match result with
       | .error .collision => []
       | .error e => [s!"error-class expected=collision got={e.name}"]
       | .ok _ => ["collision-missed:" ++ conflictKind rs]
     else
       match result with
-      | .error e => [s!"spurious-error {e.name}"]
+      | .error e =>
+        if e = .collision && conflictsStrict rs then [] else [s!"spurious-error {e.name}"]
       | .ok l =>
         let keys := l.map (·.dst)
         (if strictlySorted keys then [] else ["not-strictly-sorted"]) ++
